@@ -116,13 +116,55 @@ def event_of_row(x, r, with_id=False):
 
 
 # ------------------------------------------------------------------ backends
+DECOY_T = datetime(2019, 5, 6, 7, 8, 9, tzinfo=timezone.utc)
+DECOY_D = timedelta(seconds=7)
+
+
 class Backend:
+    """besides the store under test every backend keeps a *bystander*: a second store object of the same kind
+    (own file) alive in the same process, created first, holding buckets with the same ids and one event each.
+    Whatever the harness does to the store under test, the bystander must come out unchanged — state shared
+    between store objects (class attributes, module globals, default arguments) shows up here."""
+
     name = "?"
+    bystander = None
 
     def __init__(self):
         self.tmp = None
 
+    def new_store(self, x, which):
+        return None
+
+    def make_bystander(self, x, bids):
+        from aw_core.models import Event
+
+        d2 = self.new_store(x, "bystander")
+        if d2 is None:
+            return
+        for bid in bids:
+            d2.create_bucket(bid, "bystander-type", "bystander-client", "bystander-host", created=T0, name="bystander", data={"bystander": True})
+            d2[bid].insert(Event(timestamp=DECOY_T, duration=DECOY_D, data={"bystander": bid}))
+            d2[bid].get_eventcount()
+        self.bystander = (d2, list(bids))
+
+    def check_bystander(self):
+        if self.bystander is None:
+            return
+        d2, bids = self.bystander
+        self.bystander = None
+        try:
+            ok = sorted(d2.buckets()) == sorted(bids)
+            for bid in bids:
+                evs = d2[bid].get(-1)
+                ok = ok and len(evs) == 1 and evs[0].timestamp == DECOY_T and evs[0].duration == DECOY_D and evs[0].data == {"bystander": bid}
+                m = d2[bid].metadata()
+                ok = ok and m["type"] == "bystander-type" and m["hostname"] == "bystander-host" and m.get("data") == {"bystander": True}
+        except Exception as e:  # noqa — a bystander that cannot even be read any more is not unchanged
+            ok = False
+        C.EXTRA.append(("bystander-store-object-unchanged", bool(ok)))
+
     def close(self):
+        self.check_bystander()
         if self.tmp:
             shutil.rmtree(self.tmp, ignore_errors=True)
             self.tmp = None
@@ -131,10 +173,16 @@ class Backend:
 class MemoryBackend(Backend):
     name = "memory"
 
+    def new_store(self, x, which):
+        from aw_datastore.storages import MemoryStorage
+
+        return Datastore(MemoryStorage, testing=True)
+
     def make(self, x, state, seq=None, meta=None):
         """state: dict bucket_id -> list of Row (ids distinct within the bucket)"""
         from aw_datastore.storages import MemoryStorage
 
+        self.make_bystander(x, list(state))
         ds = Datastore(MemoryStorage, testing=True)
         for bid in state:
             ds.create_bucket(bid, "type-" + bid, "client", "host-" + bid, created=T0, name="name-" + bid, data={"d": bid})
@@ -157,14 +205,22 @@ class MemoryBackend(Backend):
 class SqliteBackend(Backend):
     name = "sqlite"
 
+    def new_store(self, x, which):
+        from aw_datastore.storages import SqliteStorage
+
+        path = "/stub/%s-%d.db" % (which, id(x)) if x.sym else os.path.join(self.tmp, which + ".db")
+        return Datastore(SqliteStorage, testing=True, filepath=path, enable_lazy_commit=True)
+
     def make(self, x, state, seq=None, meta=None, lazy=True):
         from aw_datastore.storages import SqliteStorage
 
         if x.sym:
             sqlstub.reset()
+            self.make_bystander(x, list(state))
             ds = Datastore(SqliteStorage, testing=True, filepath="/stub/sqlite-%d.db" % id(x), enable_lazy_commit=lazy)
         else:
             self.tmp = tempfile.mkdtemp(prefix="vstore_")
+            self.make_bystander(x, list(state))
             ds = Datastore(SqliteStorage, testing=True, filepath=os.path.join(self.tmp, "s.db"), enable_lazy_commit=lazy)
         st = ds.storage_strategy
         for bid in state:
